@@ -63,6 +63,8 @@ class Prop(SeqProp):
             Case(["new", "create 0", "fork 0", "flush 0", "create 1", "create 0", "exit"], {"mp": True}, "D18: child create after flush"),
             Case(["new", "create 0", "create 0", "unlink 0", "remove 0 0", "remove 0 5", "create 0", "raise"], {"mp": False},
                  "deleted behind the back, unlisted removal, exception exit"),
+            Case(["new", "create 0", "create 0", "remove 0 0", "create 0", "flush 0", "create 0", "exit"], {"mp": False, "bystanders": True},
+                 "two other pools alive in the same process"),
             Case(["fp_new 0 1 2", "fp_enter", "fp_raise"], {"mp": False, "modes": "w"}, "FilePool left by exception"),
             Case(["fp_new 0 1 2 3", "fp_enter", "fp_exit"], {"mp": False, "modes": "a", "body_close": [0, 1]},
                  "FilePool whose body closed two of the handles itself"),
@@ -104,6 +106,8 @@ class Prop(SeqProp):
             meta = {"mp": mp_case}
             if (not mp_case and rng.random() < 0.04) or (mp_case and k % 4 == 3):
                 meta["foreign"] = True  # constructed in this process, the with-block runs in a forked child
+            elif rng.random() < 0.3:
+                meta["bystanders"] = True  # other pools are alive in the same process while this one is used
             yield Case(ops, meta)
 
     # ---- implementation ------------------------------------------------------------------------------------------------
@@ -174,9 +178,42 @@ class Prop(SeqProp):
                 raise core.Timeout()
             return conn.recv()
 
+        # other pools alive in the same process (one from before, one created half-way, both with directories of their own):
+        # pools are independent of each other
+        by = {"on": bool(case.meta.get("bystanders")) and pre is None, "outer": None, "late": None, "outer_paths": [], "dirs": []}
+
+        def bystander_problem(k):
+            if not by["on"]:
+                return None
+            if by["outer"] is None:
+                d1 = d + "_outer"; os.mkdir(d1); by["dirs"].append(d1)
+                by["outer"] = TmpPool(d1); by["outer"].__enter__()
+                by["outer_paths"] = [by["outer"].create(), by["outer"].create()]
+                return None
+            if list(by["outer"]) != by["outer_paths"] or not all(os.path.exists(p) for p in by["outer_paths"]):
+                return f"another pool, alive since before, now lists {list(by['outer'])} (its files: {by['outer_paths']})"
+            if k == 3 and by["late"] is None:
+                d2 = d + "_late"; os.mkdir(d2); by["dirs"].append(d2)
+                late = by["late"] = TmpPool(d2)
+                if len(late) != 0:
+                    return f"a pool created just now already lists {list(late)}"
+                late.__enter__()
+                lp = late.create()
+                if list(late) != [lp]:
+                    return f"a pool created just now lists {list(late)} after its first create() ({lp})"
+            elif k == 5 and by["late"] is not None and by["late"] != "left":
+                by["late"].__exit__(None, None, None)
+                by["late"] = "left"
+            return None
+
         try:
             for op in case.ops:
                 w = op.split()
+                if by["on"]:
+                    prob = bystander_problem(len(out))
+                    if prob is not None:
+                        out.append("pools-not-independent " + prob)
+                        break
                 try:
                     if w[0] == "new":
                         pool = pre if pre is not None else TmpPool(d, multi_proc=mp_mode)
@@ -261,8 +298,18 @@ class Prop(SeqProp):
                     pool.__exit__(None, None, None)
                 except Exception:
                     pass
+            for bp in (by["outer"], by["late"]):
+                if bp is not None and bp != "left":
+                    try:
+                        bp.__exit__(None, None, None)
+                    except Exception:
+                        pass
+            for bd in by["dirs"]:
+                core.cleanup_dir(bd)
             if cleanup:
                 core.cleanup_dir(d)
+        while len(out) < len(case.ops):
+            out.append("aborted")
         return out
 
     def run_filepool(self, case):
@@ -405,6 +452,9 @@ class Prop(SeqProp):
                 if e != l:
                     return f"op {i} `{case.ops[i]}`: {l!r}, expected {e!r}"
             return None
+        for i, line in enumerate(impl_out):
+            if line.startswith("pools-not-independent "):
+                return f"before op {i} `{case.ops[i]}`: {line[22:][:500]}"
         listed, disk, created = [], set(), 0
         s = lambda xs: ",".join(map(str, xs))
         for i, (op, line) in enumerate(zip(case.ops, impl_out)):
